@@ -353,14 +353,20 @@ func (p *parser) value(off int, t byte, nesting int) (int, bool) {
 			if rem-6 < 1 {
 				c |= CTrunc
 			}
-			// the unknown one may be the value type while the key fails first for another
-			// reason; report all causes that a conforming parser could legitimately hit first
 			if Known(kt) {
-				// parse the first key to see whether it fails on its own
-				sub := &parser{b: b, r: &ParseResult{}}
-				if _, ok := sub.value(off+6, kt, nesting); !ok {
-					c |= sub.r.Causes
+				// only the value type is unknown: a parser meets the first key before it ever has to
+				// interpret the value type, so the key is parsed for real (nesting, sizes and its own
+				// failure causes count); the unknown tag stays an acceptable cause either way
+				n, ok := p.value(off+6, kt, nesting)
+				if !ok {
+					p.r.Causes |= CUnknown
+					return 0, false
 				}
+				c = CUnknown
+				if len(b)-(off+6+n) < 1 {
+					c |= CTrunc
+				}
+				return p.fail(off+6+n, c, nesting)
 			}
 			return p.fail(off+6, c, nesting)
 		}
